@@ -262,8 +262,14 @@ pub(crate) fn find_do_file(
     ptx: &mut ProcessTransaction,
     f: &mut state::File,
 ) -> Result<Option<DoFile>, RedoError> {
-    for do_file in possible_do_files(helpers::abs_path(ptx.state().env().base(), f.name())) {
+    let target_path = helpers::abs_path(ptx.state().env().base(), f.name()).into_owned();
+    for do_file in possible_do_files(&target_path) {
         let do_path = do_file.do_dir.join(&do_file.do_file);
+        if do_path == target_path {
+            // A target named like a rule (sub/default.do) is not its own
+            // build script.
+            continue;
+        }
         log_debug2!(
             "{}: {}:{} ?\n",
             f.name(),
